@@ -4,7 +4,8 @@ From Skv Require Import PyStr Json Node GetTree Unsafe UnsafeFacts AuditFacts No
 From Gen Require Import Snapshot.
 
 (* Every tree get_tree builds, from ANY JSON: memoised ids are pairwise distinct, and the node kinds whose
-   audit does not look at children (Json, Slice, Function) have only raw leaves below them. *)
+   audit does not look at children (Json, Slice, Function) have only raw leaves below them (a SliceNode audits its
+   own name, not its bounds). *)
 Theorem C01_tree_invariants :
   forall E schema t m, root_tree E schema = Ok (t, m) -> wf_node t = true /\ NoDup (ids t).
 Proof. intros E schema t m H. split; [eapply root_tree_wf | eapply root_tree_ids_unique]; eauto. Qed.
@@ -17,6 +18,21 @@ Theorem C01_audit_examines_every_node :
   forall x nm, sub x t -> contributes E T x nm -> False.
 Proof. exact audit_pass_nothing_contributes. Qed.
 Print Assumptions C01_audit_examines_every_node.
+
+(* in particular every node that names its own type -- every kind but JsonNode and FunctionNode; SliceNode included since
+   the D31-SliceNode repair (its get_unsafe_set used to return set() whatever the header named) -- carries, after a
+   passed audit, a name its own trusted list contains *)
+Theorem C01_audit_pass_names_trusted :
+  forall E schema T t, load_audit E schema (TList T) = Ok t ->
+  forall h subs nm, sub (Node h subs) t -> names_own (h_kind h) = true -> node_name h = Ok nm ->
+    mem nm (node_trusted E T h) = true.
+Proof.
+  intros E schema T t LA h subs nm Hs NO Hn.
+  destruct (mem nm (node_trusted E T h)) eqn:M; [reflexivity|]. exfalso.
+  eapply (audit_pass_nothing_contributes E schema T t LA (Node h subs) nm Hs). apply named_contributes; assumption.
+Qed.
+Print Assumptions C01_audit_pass_names_trusted.
+Example C01_slice_names_own : names_own KSlice = true. Proof. reflexivity. Qed.
 
 (* The name that was audited is the name that is resolved: after the audit has passed, every
    gettype/_import_obj call of construct() whose two names come from the archive resolves a name that
